@@ -9,7 +9,7 @@ func (s *SemMap) verifKeyState(key interface{}) (held, waiters int, present bool
 	if !ok {
 		return 0, 0, false
 	}
-	return w.cur, w.waiters.Len(), true
+	return int(w.cur), w.waiters.Len(), true
 }
 
 func (s *SemMap) verifEntries() int {
@@ -45,4 +45,4 @@ func VerifEntries(m SemMapper) int {
 }
 
 // VerifWaiters returns the queued waiter count of the semaphore a caller holds (0 if it is detached).
-func (s *Weighted) VerifState() (cur, size, waiters int) { return s.cur, s.size, s.waiters.Len() }
+func (s *Weighted) VerifState() (cur, size, waiters int) { return int(s.cur), int(s.size), s.waiters.Len() }
